@@ -7,6 +7,37 @@ Call arguments are recorded so wrong forwarding of buffer_size / max_workers / b
 core.py is still visible.  Symbolic mode only; replay uses the real functions."""
 CALLS = []
 
+PROCESS_BACKENDS = ('mp', 'dill_mp', 'multiprocessing', 'concurrent_mp')
+
+
+def _transport(v):
+    """what crosses a process boundary arrives as a pickled copy: containers are rebuilt, immutable scalars keep their value, an
+    instance of a plain class arrives as a *new* object (identity is lost) unless it pickles by reference (a class, a function, a
+    module-level singleton whose __reduce__ returns its global name)"""
+    if isinstance(v, list):
+        return [_transport(x) for x in v]
+    if isinstance(v, tuple):
+        return tuple(_transport(x) for x in v)
+    if isinstance(v, dict):
+        return {_transport(k): _transport(x) for k, x in v.items()}
+    if type(v) is object:
+        return object()
+    if isinstance(v, BaseException):
+        # exceptions are rebuilt from (class, args)
+        try:
+            return type(v)(*[_transport(a) for a in v.args])
+        except Exception:   # noqa
+            return v
+    red = getattr(type(v), '__reduce__', None)
+    if red is not None and red is not object.__reduce__ and not isinstance(v, (int, str, bytes, float, bool, type(None))):
+        try:
+            r = v.__reduce__()
+        except Exception:   # noqa
+            r = None
+        if isinstance(r, str):
+            return v          # pickled by reference to a module-level name: the same object on the other side
+    return v
+
 
 def lazy_parallel_map(function, generator, *, args=None, kwargs=None, backend='t', buffer_size=5, max_workers=2):
     CALLS.append(('lazy_parallel_map', backend, buffer_size, max_workers))
@@ -19,8 +50,17 @@ def lazy_parallel_map(function, generator, *, args=None, kwargs=None, backend='t
         if backend is not False:
             assert buffer_size >= max_workers
         assert buffer_size > 0
+        proc = backend in PROCESS_BACKENDS
         for ele in generator:
-            yield function(ele, *args, **kwargs)
+            if proc:
+                # process pools: the task arguments and the result (or the exception) cross a process boundary
+                try:
+                    res = function(_transport(ele), *args, **kwargs)
+                except Exception as e:   # noqa
+                    raise _transport(e)
+                yield _transport(res)
+            else:
+                yield function(ele, *args, **kwargs)
     return gen()
 
 
